@@ -1,1 +1,3 @@
-// reference models (no TurDB code)
+//! Reference models — no TurDB code in this crate.
+pub mod val;
+pub use val::V;
